@@ -148,5 +148,13 @@ def fill(claim, na):
         TB + "eko is external: its basis is modelled, not translated (tied by ~600 correspondence cases per quick run; eko's 2.2e-15 tolerance at the left end of a first area is modelled as equality). The rate of convergence outside the span (Lagrange remainder) is observed, not proved.",
         "DESIGN.md 6/C19",
     )
-    for p in ["C01", "C04"]:
+    claim(
+        "C01",
+        "proof",
+        "hand-written Lean 4 model of compute_local / convolve_vector / conv.convolution's assembly + theorems over the reals (Mathlib interval integrals) using the interpolation-basis model of C19 + correspondence with the real compute_local (recorded convolve_vector vectors) + independent re-computation of every operator entry of real runs from the Combiner's kernels",
+        "Proved: every entry orders[(o,0,0,0)][pid][j] of the model is sum over kernels of weight(pid) x point x convolution(rsl_o, point, p_j) with the channel's own convolution point as argument and prefactor, nothing for inactive orders / absent coefficients / empty RSLs, zero rows for partons without weight; over the reals, with conv(g) = int reg g(chi/z)/z + int sing (g(chi/z)/z - g(chi)) + g(chi) loc(chi): the contraction of the entries with node values is conv of the interpolant (linearity), and on every logarithmic grid reaching 1, every degree, every coefficient function and convolution point in the grid, for PDFs in the span it equals chi x conv(f) - the factorised structure function; the is_below_x early exit is exact (conv(p_j)=0). Real code: compute_local with recorded convolve_vector outputs = model assembly (all schemes/processes/orders); convolve_vector = map of convolution; conv.convolution's exits and assembly on the real eko basis; every entry of real runs (18 configurations: ZM/FFNS/FFN0/FONLL, EM/NC/CC, light/total/heavy, polarised, x in first/last/last-two intervals, on nodes) re-computed by an independent quadrature (other variable, other breakpoints) from the real kernels; contraction with in-span PDFs vs direct quadrature with the analytic PDF.",
+        TB + "scipy quadrature accuracy is observed (2e-7), not proved; integrability of the basis integrands is a hypothesis of the linearity theorem; the entry is 0 by construction for a convolution point >= 1-1e-10; scale-variation orders are C05's, the local-part consistency C03's, the basis C19's.",
+        "DESIGN.md 6/C01",
+    )
+    for p in ["C04"]:
         na(p, "check not yet built in this round (design in DESIGN.md section 6); will be claimed once its Lean model, theorems and correspondence exist")
